@@ -165,7 +165,7 @@ pub fn generate_actor( aaa: AAA, item_impl: &ItemImpl) -> ModelSdpl {
 
     let (  p_impl_generics,
            p_ty_generics,
-           _p_where_clause  ) =  mod_gen.private_gen.split_for_impl();
+           p_where_clause  ) =  mod_gen.private_gen.split_for_impl();
 
     let (  l_impl_generics,
            _l_ty_generics,
@@ -283,7 +283,7 @@ pub fn generate_actor( aaa: AAA, item_impl: &ItemImpl) -> ModelSdpl {
 
         cont.push_script_met(direct,
         & quote!{
-            #async_decl fn #direct #p_impl_generics (self, #actor: & #mut_token #model_actor_type ) {
+            #async_decl fn #direct #p_impl_generics (self, #actor: & #mut_token #model_actor_type ) #p_where_clause {
                 match self {
                     #(#direct_arms),*
                 }
@@ -309,7 +309,7 @@ pub fn generate_actor( aaa: AAA, item_impl: &ItemImpl) -> ModelSdpl {
             let msg_direct_call = quote!{ #msg.#direct ( & #direct_play_mut_token #actor ) #await_call; };
             let while_block_code = (*play_while_block)(msg_direct_call);
             quote! {
-                #async_decl fn #play #p_impl_generics( #pat_type_receiver #direct_play_mut_token #actor: #model_actor_type #debut_pat_type ) {
+                #async_decl fn #play #p_impl_generics( #pat_type_receiver #direct_play_mut_token #actor: #model_actor_type #debut_pat_type ) #p_where_clause {
                     while let #ok_or_some (#msg) = #receiver.recv() #await_call {
                         #while_block_code
                     }
